@@ -96,7 +96,9 @@ Encode(v) ==
 Canon(v) == IF v.kind \in B58Kinds THEN [v EXCEPT !.net = B58Net(v.net)] ELSE v
 ValueOf(r) == [kind |-> r.kind, net |-> r.net]
 
-\* `convert_if_network(want)`: allowed iff the string could be the encoding of an address of network `want`
+\* `convert_if_network(want)` on a PARSED address v (the value of some accepted string): allowed iff the
+\* string could be the encoding of an address of network `want`
+ParsedValues == {Canon(w) : w \in Values}
 ConvOK(v, want) == \E w \in Values : w.net = want /\ Parse(Encode(w)).acc /\ ValueOf(Parse(Encode(w))) = v
 
 \* ------------------------------------------------------------------ theorems (TLC, exhaustively)
@@ -107,6 +109,7 @@ ThRoundTrip == \A v \in Values :
 ThCanonical(s) == Parse(s).acc => Encode(ValueOf(Parse(s))) = Trim(s)
 ThInjective == \A v, w \in Values : Encode(v) = Encode(w) => Canon(v) = Canon(w)
 ThWhitespace(s) == s.ws # "inner" => Parse(s) = Parse(Trim(s))
-ThConv == \A v \in Values, want \in Nets :
+ThParsed == ParsedValues = {ValueOf(Parse(s)) : s \in {t \in Strings : Parse(t).acc}}
+ThConv == \A v \in ParsedValues, want \in Nets :
     ConvOK(v, want) = (v.net = want \/ (v.net = "test" /\ want = "regtest" /\ v.kind \in B58Kinds))
 ================================================================================
